@@ -319,7 +319,7 @@ def conditions(tier, seed, active):
             chosen |= set(rng.sample(combos, 8))
             combos = sorted(chosen)
         else:
-            combos = sorted(set(rng.sample(combos, 400)) | {(k, ni, "properties") for k in KINDS for ni in range(len(NAMES))}
+            combos = sorted(set(rng.sample(combos, 150)) | {(k, ni, "properties") for k in KINDS for ni in range(0, len(NAMES), 3)}
                             | {("local", ni, w) for ni in range(len(NAMES)) for w in PLACES})
         for k, ni, w in combos:
             c("ref/%s/name%d/%s/d%d" % (k, ni, w, d), "transparent", dict(d=d, kind=k, ni=ni, where=w), wit=(rng.random() < 0.05))
